@@ -1,5 +1,6 @@
 import Heph.Proofs.DepthBound
 import Heph.Proofs.DepthErasure
+import Heph.Proofs.Processor
 import Heph.Generated.Skeleton
 /-!
 # C18 — the pipeline never fails internally and always terminates (*partial*)
@@ -191,6 +192,20 @@ theorem every_increment_needed :
 /-- … and so do removing the `gen_bottom` cut of `gen_new` and switching the leaf rule off -/
 theorem cut_needed : SkeletonOK (dropCut Generated.skeleton) = false := by decide
 
+/-- the table one reads when the guard of the cut exempts `x` (e.g. all built-in types) instead of the primitive
+    types of the argument -/
+def widenExemption (x : String) (sk : Skeleton) : Skeleton :=
+  { sk with gens := sk.gens.map fun g =>
+      { g with sites := g.sites.map fun s => if s.cut.isSome then { s with cutExempt := [x] } else s } }
+
+/-- … and so does changing the CONDITION of the cut: exempting every built-in type (arrays and function types
+    are built-ins whose values are generated recursively), or guarding the cut by anything that is not
+    "the argument type is primitive" -/
+theorem cut_condition_needed :
+    SkeletonOK (widenExemption "tu.is_builtin(expr_type, self.bt_factory)" Generated.skeleton) = false ∧
+    SkeletonOK (widenExemption "?:utils.random.bool()" Generated.skeleton) = false ∧
+    SkeletonOK (widenExemption "expr_type.is_primitive()" Generated.skeleton) = true := by decide
+
 theorem leaf_rule_needed : SkeletonOK (dropLeafRule Generated.skeleton) = false := by decide
 
 example : (raisedPaths Generated.skeleton).length = 11 := by decide
@@ -219,6 +234,105 @@ theorem erasure_steps (n0 n maxComb : Nat) (firstFeasible : Option Nat) :
   refine ⟨by omega, fun h => ?_⟩
   have := this.2 h
   omega
+
+/-! ### the per-iteration driver: `ProgramProcessor` and the loops of `hephaestus.py`
+
+`Heph/Model/Processor.lean` models `transform_program` / `can_transform` / `inject_fault` and
+`process_cp_transformations` / `process_ncp_transformations` / `gen_program` with the transformers as a
+PARAMETER (`Beh P`: any function of the global run number, the iteration, the class, the transformation
+number and the program's content — raising, mutating in place, returning a fresh object, reporting
+`is_transformed` or not).  The `while proc.can_transform()` loop ends for EVERY such behaviour, because
+`transform_program` advances `current_transformation` on every call that returns — also when it returns
+`None` for a step that transformed nothing (the loop answers `None` with `continue`). -/
+section processor
+open Heph.Processor
+
+/-- every call of `transform_program` that returns (a pair or `None`) has advanced the counter by one -/
+theorem transform_counter_increases {P : Type} [Inhabited P] (beh : Beh P) (w : World P) (pr : Proc) (a : Nat)
+    (x : Option (Nat × String)) (h : (transformProgram beh w pr a).2.2 = .ok x) :
+    (transformProgram beh w pr a).2.1.cur = pr.cur + 1 :=
+  (transformProgram_advances beh w pr a x h).1
+
+/-- the correctness-preserving loop ends without outside help and performs at most as many steps as
+    transformations are left in the schedule — whatever the transformers do, including "never transforms" -/
+theorem cp_loop_terminates {P : Type} [Inhabited P] (beh : Beh P) (keepAll : Bool) (fuel : Nat) (w : World P)
+    (pr : Proc) (a : Nat) (ps : Option P) (n : Nat) (hf : pr.schedule.length - pr.cur < fuel) :
+    (cpLoop transformProgram beh keepAll fuel w pr a ps n).status ≠ .fuel ∧
+    (cpLoop transformProgram beh keepAll fuel w pr a ps n).steps ≤ n + (pr.schedule.length - pr.cur) :=
+  let h := cpLoop_spec transformProgram transformProgram_advances beh keepAll fuel w pr a ps n hf
+  ⟨h.1, h.2.1⟩
+
+/-- … and when no transformer raises, exactly that many, leaving the counter at the end of the schedule -/
+theorem cp_loop_steps {P : Type} [Inhabited P] (beh : Beh P) (keepAll : Bool) (fuel : Nat) (w : World P)
+    (pr : Proc) (a : Nat) (ps : Option P) (n : Nat) (hf : pr.schedule.length - pr.cur < fuel)
+    (hd : (cpLoop transformProgram beh keepAll fuel w pr a ps n).status = .done) :
+    (cpLoop transformProgram beh keepAll fuel w pr a ps n).steps = n + (pr.schedule.length - pr.cur) ∧
+    (cpLoop transformProgram beh keepAll fuel w pr a ps n).proc.cur = max pr.cur pr.schedule.length :=
+  let h := (cpLoop_spec transformProgram transformProgram_advances beh keepAll fuel w pr a ps n hf).2.2 hd
+  ⟨h.1, h.2.1⟩
+
+/-- one iteration (`gen_program`) with a schedule of `k` transformations: the fuel the model picks is never
+    exhausted and `transform_program` is called at most `k` times -/
+theorem gen_program_terminates {P : Type} [Inhabited P] (beh : Beh P) (args : Args) (load : Loader P) (stored : P)
+    (gen : Nat → P) (sched : List String) (w : World P) (pid : Nat) :
+    (genProgram transformProgram beh args load stored gen (.ok sched) w pid).2.status ≠ .fuel ∧
+    (genProgram transformProgram beh args load stored gen (.ok sched) w pid).2.steps ≤ sched.length := by
+  simp only [genProgram]
+  generalize hw : getProgram args load stored gen w pid = g
+  obtain ⟨w1, a⟩ := g
+  simp only
+  generalize hw2 : (if args.keepAll = true then w1.save (Dest.generator pid) (w1.heap.read a) (w1.heap.read a) else w1) = w2
+  have hspec := cpLoop_spec transformProgram transformProgram_advances beh args.keepAll (loopFuel sched) w2
+    { pid := pid, schedule := sched } a none 0 (by simp [loopFuel])
+  simp only [Nat.sub_zero, Nat.zero_add] at hspec
+  generalize hl : cpLoop transformProgram beh args.keepAll (loopFuel sched) w2 { pid := pid, schedule := sched } a none 0 = o at hspec
+  have hpc : ∀ st, (processCp transformProgram beh args.keepAll (loopFuel sched) w2 { pid := pid, schedule := sched } a).status = st →
+      o.status = st ∧ (processCp transformProgram beh args.keepAll (loopFuel sched) w2 { pid := pid, schedule := sched } a).steps = o.steps := by
+    intro st
+    unfold processCp
+    simp only [hl]
+    cases hos : o.status <;> simp [hos]
+  generalize hq : processCp transformProgram beh args.keepAll (loopFuel sched) w2 { pid := pid, schedule := sched } a = q at hpc
+  have hq1 := hpc q.status rfl
+  cases hqs : q.status with
+  | done =>
+    simp only
+    cases args.onlyCP with
+    | true => simp; omega
+    | false =>
+      simp only [Bool.false_eq_true, if_false]
+      rcases processNcp beh args.keepAll q.world q.proc a with ⟨w3, pr3, r⟩
+      cases r with
+      | error e => simp; omega
+      | ok v => cases v <;> simp <;> omega
+  | failed e => simp; omega
+  | raised e => simp; omega
+  | fuel =>
+    rw [hqs] at hq1
+    exact absurd hq1.1 hspec.1
+
+/-- the counter-model: had `transform_program` advanced the counter only for a step that transformed
+    something, a scheduled transformer that never transforms would keep the loop running for ever (every
+    fuel is exhausted) -/
+theorem late_counter_diverges (fuel : Nat) (w : World (List Nat)) (a : Nat) (ps : Option (List Nat)) (n : Nat) :
+    (cpLoop transformProgramLate (fun _ _ _ _ p => .ran p none false "") false fuel w
+      { pid := 1, schedule := ["TypeErasure"] } a ps n).status = .fuel := by
+  induction fuel generalizing w n with
+  | zero => rfl
+  | succ f ih =>
+    unfold cpLoop
+    simp only [Proc.canTransform, transformProgramLate, applyTransformation]
+    simpa using ih _ _
+
+/-- hypotheses of `cp_loop_terminates` met by a non-trivial value: three scheduled transformations, of which the
+    second transforms nothing and the third returns a fresh object; three steps, counter at 3 -/
+example :
+    let beh : Beh (List Nat) := fun call _ _ _ p =>
+      if call = 1 then .ran p none false "" else if call = 2 then .ran p (some (p ++ [2])) true "" else .ran (p ++ [call]) none true ""
+    let o := cpLoop transformProgram beh true 4 (freshLoad {} [7]).1 { pid := 1, schedule := ["TypeErasure", "TypeErasure", "TypeErasure"] } 0 none 0
+    o.status = .done ∧ o.steps = 3 ∧ o.proc.cur = 3 ∧ o.world.heap.cells = [[7, 0], [7, 0, 2]] := by decide
+
+end processor
 
 /-! ### non-vacuity -/
 
